@@ -33,24 +33,37 @@ def _arith_in_slice(sl):
     return out
 
 
+def _from_limited(body, defs, op):
+    """does the value of this operand derive (by value flow) from the result of Limited::new?  -> the Limited::new call nodes in its slice"""
+    pl = op_place(op)
+    if pl is None:
+        return []
+    sl, _ = backward_slice(body, pl['l'], defs)
+    return [n for c, _, n in slice_calls(sl) if c == 'http_body_util::limited::Limited::new']
+
+
 def r1_limited_collect(ctx):
-    ctx.rule('C14.R1', 'P7 provenance: in BufferedBody::_extract_with_limit every BufferedBody{bytes} takes `bytes` from '
-             'Collected::to_bytes of a BodyExt::collect whose receiver has type Limited<_> built by Limited::new(body, n); n derives '
-             'from the max_size parameter through allow-listed conversions only (no arithmetic, no other constant than the '
-             'saturation default); every collect() in that function has a Limited receiver.')
+    ctx.rule('C14.R1', 'P7 provenance, on BufferedBody::_extract_with_limit with its private helpers (sync or async) inlined (P13): every '
+             'BufferedBody{bytes} takes `bytes` from Collected::to_bytes of a BodyExt::collect whose receiver derives from '
+             'Limited::new(body, n); n derives from the max_size parameter through allow-listed conversions only (no arithmetic, no other '
+             'constant than the saturation default); every collect() reached from that function has such a receiver; the collect error is '
+             'tested for LengthLimitError.')
+    from ..inline import inlined, closures_of
     bodies = ctx.fb.bodies_of_item(CR, BB + '::_extract_with_limit')
     body = [b for b in bodies if b.is_coroutine]
     body = ctx.need('C14.R1', 'coroutine body of BufferedBody::_extract_with_limit', body[0] if len(body) == 1 else None)
     if body is None:
         return
+    body = inlined(ctx.fb, body)
     defs = Defs(body)
     aggs = [(bb, st) for bb, j, st in body.all_assigns() if st['rv']['k'] == 'agg' and strip_generics(st['rv'].get('adt', '')) == BB]
     ctx.floor('C14.R1', 'BufferedBody constructions in _extract_with_limit', len(aggs), 1)
     collects = [(bb, t) for bb, t in body.calls() if callee(t) == COLLECT]
     for bb, t in collects:
-        rty = t['aty'][0]
-        ctx.ob('C14.R1', 'collect-receiver|_extract_with_limit', strip_generics(rty).startswith('http_body_util::limited::Limited'), body.loc(bb, t),
-               'collect() is called on a receiver of type `%s` (must be http_body_util::limited::Limited<_>)' % rty)
+        lim = _from_limited(body, defs, t['args'][0])
+        ctx.ob('C14.R1', 'collect-receiver|_extract_with_limit', bool(lim), body.loc(bb, t),
+               'collect() is called on a receiver (type `%s`) that %s' % (t['aty'][0], 'is the result of Limited::new' if lim else
+                                                                          'does not derive from http_body_util::Limited::new'))
     for bb, st in aggs:
         i = st['rv']['fields'].index('bytes')
         pl = op_place(st['rv']['ops'][i])
@@ -59,7 +72,7 @@ def r1_limited_collect(ctx):
         names = {c for c, _ in calls}
         col = [n for c, n in calls if c == COLLECT]
         lim = [n for c, n in calls if c == 'http_body_util::limited::Limited::new']
-        ok = bool(col) and all(strip_generics(n['aty'][0]).startswith('http_body_util::limited::Limited') for n in col) and bool(lim) \
+        ok = bool(col) and all(_from_limited(body, defs, n['args'][0]) for n in col) and bool(lim) \
             and 'http_body_util::collected::Collected::to_bytes' in names
         ctx.ob('C14.R1', 'bytes-from-limited-collect', ok, body.loc(bb, st),
                'BufferedBody.bytes <- to_bytes <- collect(%s) <- Limited::new: %s' % ([n['aty'][0] for n in col], bool(lim)))
@@ -91,10 +104,12 @@ def r1_limited_collect(ctx):
             ctx.ob('C14.R1', 'limit-provenance', ok, body.loc(None, n),
                    'limit given to Limited::new derives from the max_size parameter: %s; through calls %s; non-conversion calls: %s; arithmetic: %s'
                    % (from_param, sorted(ncalls), foreign, arith))
-    # LengthLimitError -> SizeLimitExceeded: the downcast target type
-    dc = [t for bb, t in body.calls() if (callee(t) or '').endswith('::downcast_ref')]
+    # LengthLimitError -> SizeLimitExceeded: the type the collect error is tested against (downcast_ref / is / downcast), in the function,
+    # its inlined helpers or one of their closures
+    dc = [t for x in [body] + closures_of(ctx.fb, body) for bb, t in x.calls()
+          if (callee(t) or '').split('::')[-1] in ('downcast_ref', 'is', 'downcast', 'downcast_mut') and 'Error' in (callee(t) or '')]
     ok = any('http_body_util::limited::LengthLimitError' in g for t in dc for g in t.get('ga', []))
-    ctx.ob('C14.R1', 'limit-error-recognised', ok, body.loc(), 'the collect error is downcast to http_body_util::LengthLimitError: %s' % ok)
+    ctx.ob('C14.R1', 'limit-error-recognised', ok, body.loc(), 'the collect error is tested against http_body_util::LengthLimitError: %s' % ok)
 
 
 def _none_only_when_disabled(ctx, fn_path):
@@ -135,6 +150,8 @@ def r2_sole_constructors(ctx):
     ex = [b for b in ctx.fb.bodies_of_item(CR, BB + '::extract') if b.is_coroutine]
     ex = ctx.need('C14.R2', 'coroutine body of BufferedBody::extract', ex[0] if len(ex) == 1 else None)
     if ex is not None:
+        from ..inline import inlined
+        ex = inlined(ctx.fb, ex, keep={BB + '::_extract_with_limit'})
         defs = Defs(ex)
         for bb, t in ex.calls():
             if callee(t) == COLLECT:
@@ -170,20 +187,44 @@ def r2_sole_constructors(ctx):
                 ctx.ob('C14.R2', 'enabled-routes-to-limited-with-its-max_size', okk, ex.loc(bb, t),
                        '_extract_with_limit is called under arm %s with a limit read from %s; arithmetic on it: %s' % (sorted(g) if g else None, sorted(reads), arith))
         ctx.need('C14.R2', '_extract_with_limit call in extract', [1 for _, t in ex.calls() if callee(t) == BB + '::_extract_with_limit'])
-    # who polls / buffers the raw body
+    # who touches the raw body: every call site of pavex that is handed a RawIncomingBody (or the hyper Incoming inside it) sits in
+    # BufferedBody::extract, in a private helper all of whose callers are in that family, or in RawIncomingBody's own impls
+    callers = {}
+    for b in ctx.fb.bodies(CR):
+        if not b.is_promoted:
+            for bb, t in b.calls():
+                c = callee(t) or ''
+                if c.startswith('pavex::') and c != b.nroot:
+                    callers.setdefault(c, set()).add(b.nroot)
+    fam = {BB + '::extract'}
+    changed = True
+    while changed:
+        changed = False
+        for h, cs in callers.items():
+            if h not in fam and cs and cs <= fam:
+                fam.add(h)
+                changed = True
+
+    def raw(ty):
+        if 'pavex::request::body::raw_body::RawIncomingBody' in ty:
+            return True
+        return 'hyper::body::incoming::Incoming' in ty and 'Request<' not in ty and not ty.startswith('fn(') and '{closure' not in ty
+
     n_raw = 0
     for b in ctx.fb.bodies(CR):
         if b.is_promoted:
             continue
         for bb, t in b.calls():
             c = callee(t) or ''
-            if c in (COLLECT, 'http_body::Body::poll_frame', 'http_body_util::BodyExt::frame', 'http_body_util::BodyExt::into_data_stream',
-                     'http_body_util::BodyExt::boxed', 'http_body_util::BodyExt::boxed_unsync') and t['aty'] and \
-                    ('RawIncomingBody' in t['aty'][0] or 'hyper::body::incoming::Incoming' in t['aty'][0]):
-                n_raw += 1
-                ok = b.nroot == BB + '::extract' or (b.raw.get('impl_trait') == 'http_body::Body' and 'RawIncomingBody' in b.raw.get('impl_self', ''))
-                ctx.ob('C14.R2', 'raw-body-consumer|%s|%s' % (b.nroot.replace('pavex::request::body::', ''), c.split('::')[-1]), ok, b.loc(bb, t),
-                       '%s on the raw incoming body in %s' % (c, b.nroot))
+            if not any(raw(a) for a in t['aty']):
+                continue
+            n_raw += 1
+            # RawIncomingBody's own Body impl (which forwards poll_frame to hyper) and its macro-generated pin projections
+            own = (b.raw.get('impl_trait') == 'http_body::Body' and 'RawIncomingBody' in (b.raw.get('impl_self') or '')) or \
+                (bool(b.raw.get('exp')) and 'RawIncomingBody' in (b.raw.get('impl_self') or b.nid) and b.nid.split('::')[-1] in ('project', 'project_ref', 'project_replace'))
+            ok = b.nroot in fam or own
+            ctx.ob('C14.R2', 'raw-body-consumer|%s|%s' % (b.nroot.replace('pavex::request::body::', ''), c.split('::')[-1]), ok, b.loc(bb, t),
+                   '%s is handed the raw incoming body in %s%s' % (c, b.nroot, '' if ok else ' — outside BufferedBody::extract and its private helpers'))
     ctx.floor('C14.R2', 'consumers of the raw incoming body (positive control)', n_raw, 2)
     for path in ('pavex::request::body::json::JsonBody::extract', 'pavex::request::body::url_encoded::UrlEncodedBody::extract'):
         sig = ctx.need('C14.R2', 'signature of ' + path, ctx.fb.fn_sig(CR, path))
